@@ -319,10 +319,38 @@ def run(ctx):
     _findings(ctx, "V", suspects, traces, keep, base, verdicts)
     ctx.leg("V", traces=len(traces))
     _sphinx_include_leg(ctx)
+    _line_block_leg(ctx)
     from .. import include_slice
     include_slice.leg(ctx, quick)
     shutil.rmtree(ctx.wd / "docs", ignore_errors=True)
     ctx.exhaustive = True
+
+
+def _line_block_leg(ctx):
+    """lines a directive hands to state.inline_text one by one (docutils' line-block): a MyST warning raised in such a
+    line carries that line's number, at any nesting and with either option style"""
+    import re
+    from ..frontends import docutils_doctree
+    bodies = [["first {nosuchrole}`a`", "second", "  third {nosuchrole}`b`"], ["one", "two {nosuchrole}`c`"]]
+    n = 0
+    for body in bodies:
+        for opts in ([], [":class: c", ""], ["---", "class: c", "---"]):
+            for wrap in ("", "> ", "note"):
+                inner = ["```{line-block}"] + opts + body + ["```"]
+                if wrap == "> ":
+                    inner = ["> " + ln if ln else ">" for ln in inner]
+                elif wrap == "note":
+                    inner = ["````{note}"] + inner + ["````"]
+                text = "\n".join(["para", ""] + inner + ["", "after"]) + "\n"
+                want = [k + 1 for k, ln in enumerate(text.split("\n")) if "nosuchrole" in ln]
+                doc, warns = docutils_doctree(text, {})
+                got = sorted(w["line"] for w in warns if w["tag"] == "myst.role_unknown")
+                n += 1
+                ctx.count(("line-block", text))
+                ctx.traces_validated += 1
+                if got != want:
+                    ctx.violation(f"warnings raised in the lines of a line-block: expected lines {want}, observed {got}", {"leg": "R-line-block", "markdown": text})
+    ctx.leg("R-line-block", documents=n)
 
 
 def _sphinx_include_leg(ctx):
